@@ -102,7 +102,24 @@ class SlotResolver:
         k = n.get("k")
         if k == "CallExpr" and tbf.callee_name(n) == "make_const":
             return self.resolve(tbf.call_args(n)[0], depth + 1, True)
+        if k in ("CXXStaticCastExpr", "CStyleCastExpr", "CXXFunctionalCastExpr") and len(kids(n)) == 1:
+            inner = strip(kids(n)[0])
+            if inner.get("k") in ("CallExpr", "CXXMemberCallExpr") and tbf.callee_name(inner) == "size":
+                return self.resolve(inner, depth + 1, const_seen)
         if k in ("CallExpr", "CXXMemberCallExpr"):
+            nm0 = tbf.callee_name(n)
+            b0 = tbf.call_base(n)
+            if nm0 == "data" and b0 is not None and not tbf.call_args(n) and strip(b0).get("k") == "DeclRefExpr":
+                d0 = self.fm.decls.get(strip(b0).get("did"))
+                if d0 is not None and "array<" in d0.get("t", "").replace(" ", ""):
+                    return self.resolve(b0, depth + 1, const_seen)        # std::array local handed as a pointer
+            if nm0 == "size" and (b0 is not None or len(tbf.call_args(n)) == 1):
+                vb = strip(b0 if b0 is not None else tbf.call_args(n)[0])
+                if vb.get("k") == "DeclRefExpr":
+                    d0 = self.fm.decls.get(vb.get("did"))
+                    if d0 is not None and "vector<" in d0.get("t", "") and "reference_wrapper" in d0.get("t", ""):
+                        # the count handed with a vector of references is the vector's own length
+                        return {"kind": "count", "var": None, "vecsize": vb["did"], "name": "%s.size()" % d0["name"], "node": n, "decl": None}
             a = self._acc(n, const_seen)
             if a:
                 return a
@@ -136,13 +153,18 @@ class SlotResolver:
                     if e.get("kind") == "acc" and isconst:
                         e["const"] = True
                 return {"kind": "vec", "var": did, "name": d["name"], "elems": elems, "const": isconst, "node": n, "decl": d}
-            if t.endswith("]"):
+            if t.endswith("]") or "std::array<" in t.replace(" ", ""):
                 fills = []
                 for x in walk(self.fm.body):
-                    if x.get("k") == "BinaryOperator" and x.get("op") == "=":
-                        lhs = strip(kids(x)[0])
+                    if x.get("k") in ("BinaryOperator", "CXXOperatorCallExpr") and x.get("op") == "=":
+                        lhs = strip(kids(x)[0] if x.get("k") == "BinaryOperator" else kids(x)[1])
+                        rhs = kids(x)[1] if x.get("k") == "BinaryOperator" else kids(x)[2]
                         if lhs.get("k") == "ArraySubscriptExpr" and strip(kids(lhs)[0]).get("did") == did:
-                            fills.append({"index": kids(lhs)[1], "value": kids(x)[1], "node": x})
+                            fills.append({"index": kids(lhs)[1], "value": rhs, "node": x})
+                        elif lhs.get("k") == "CXXOperatorCallExpr" and lhs.get("op") == "[]" and len(kids(lhs)) >= 3 and strip(kids(lhs)[1]).get("did") == did:
+                            fills.append({"index": kids(lhs)[2], "value": rhs, "node": x})
+                        elif lhs.get("k") == "ArraySubscriptExpr" and strip(kids(lhs)[0]).get("k") == "DeclRefExpr" and False:
+                            pass
                 return {"kind": "arr", "var": did, "name": d["name"], "fills": fills, "node": n, "decl": d}
             init = kids(d)
             if self.fm.assigned.get(did) or not init or t.replace("const ", "") in ("long", "int", "unsigned long", "size_t"):
